@@ -119,7 +119,9 @@ pub fn view(g: &G, o: &mut Out) {
 }
 
 pub fn snapshot(g: &G, o: &mut Out) {
-    snapshot_k(g, o, 0)
+    // the order of the entries inside a traversal-list row is not fixed by any property (and depends on
+    // hash iteration for derived graphs): rows are compared as sets (kinds 1016 / 1019)
+    snapshot_k(g, o, 1000)
 }
 
 /// `off` = 1000 when the row order of the adjacency vectors depends on hash iteration
